@@ -125,10 +125,20 @@ class C16(Property):
         ctx.cls(f"dim{dim}", f"field:{spec['field']['kind']}", f"smoothing:{spec['smoothing']}", "odd-axis" if any(n % 2 for n in shape) else "even-axes")
         field = ScalarField(grid, data)
         snap = data.tobytes()
-        k, S = get_structure_factor(field, smoothing=None)
+        k_user, S_user = get_structure_factor(field, smoothing=None)
         ctx.require(field.data.tobytes() == snap, "field-modified", "get_structure_factor modified the field")
-        if not ctx.require(k.shape == (N - 1,) and S.shape == (N - 1,), "shape", f"k {k.shape}, S {S.shape} for {N} cells"):
+        if not ctx.require(k_user.shape == (N - 1,) and S_user.shape == (N - 1,), "shape", f"k {k_user.shape}, S {S_user.shape} for {N} cells"):
             return
+        # the caller owns what is returned: converting the returned arrays in place (say, to other units) must not change what a
+        # later call returns for the same field
+        k, S = np.array(k_user, copy=True), np.array(S_user, copy=True)
+        try:
+            k_user *= 0.5
+            S_user[...] = -1.0
+        except ValueError:
+            pass  # read-only results are fine
+        k_again, S_again = get_structure_factor(field, smoothing=None)
+        ctx.require(np.array_equal(k_again, k) and np.array_equal(S_again, S), "result-aliases-internal-state", "after modifying the returned arrays in place, the same call returns something else")
         nmodes = int(np.sum(S > 1e-12))
         shift_nontrivial = any(s % n for s, n in zip(t["shift"], shape)) or any(t["flip"]) or list(t["perm"]) != list(range(dim))
         ctx.nontrivial = nmodes >= 2 and bool(shift_nontrivial)
